@@ -165,7 +165,10 @@ def class_clauses(cname, x, cfg, NFFT, s1, s2):
     bad = []
 
     def fresh(s, sbf):
-        p = O.make(cname, x, cfg, s, NFFT, sbf)
+        # "fresh" or reached through a history that ends in the same settings (derived from the case itself; see _estimators.via)
+        from props import _estimators as E
+        route = 'fresh' if fresh_only else E.route_for(x, cname, NFFT, s, sbf)[0]
+        p = E.via(lambda d, n, s_, b: O.make(cname, d, cfg, s_, n, b), x, NFFT, s, sbf, route)
         return np.array(p.psd, dtype=float), p
     a1, _ = fresh(s1, False); b1, _ = fresh(s1, True); a2, pa2 = fresh(s2, False); b2, _ = fresh(s2, True)
     if not (np.all(np.isfinite(a1)) and np.all(np.isfinite(a2))):
